@@ -272,11 +272,14 @@ PROPS = {
                 "perturbation at every schedule point. Observed: every call returns, persisted counters per cycle (monotone, final = G*M), goroutine profile after EndTest/Reset. "
                 "Distinct = distinct case line.",
         "level_text": "Theorems (Props/C16.lean): all_lock_balanced — the lock/unlock/return skeleton of every mutex-taking method, REGENERATED from /repo's sources on every run "
-                      "(harness/cmd/extract -> Gen/Facts.lean), releases the mutex on every return path (kernel-evaluated); exited_never_owns, owner_can_always_move (no call blocks "
+                      "(harness/cmd/extract -> Gen/Facts.lean), releases the mutex on every return path (kernel-evaluated); every_path_releases_the_mutex: by the soundness of that checker against an independent path "
+                      "semantics (Lemmas/LockSound.lean: a branch runs one alternative, a loop body any number of times), no such method has a path that unlocks a mutex it does not "
+                      "hold, returns with it held or falls off its end with it; exited_never_owns, owner_can_always_move (no call blocks "
                       "forever), flusher_at_most_one, no_active_flusher_without_canceler, counters_are_sums for every schedule of any number of user goroutines and flusher "
                       "generations (inductive invariant); deadlock_before_fix and unrepaired_flusher_rejected for the pinned commit (F15).",
         "level_note": "PARTIAL for 'no data races': mutex regions are atomic steps of the model and the Go memory model is trusted. The skeleton check looks at Lock/Unlock/defer/return "
-                      "structure only (it does not know which fields a method touches). The histogram interval recorder shares the skeleton; its stream cases use the performance variant.",
+                      "structure only (it does not know which fields a method touches, nor other blocking calls such as WaitGroup.Wait - seeded change agent-C16 is caught by the "
+                      "schedule stream, not by the skeletons). The histogram interval recorder shares the skeleton; its stream cases use the performance variant.",
         "assumptions": ["sync.Mutex is a correct mutex"],
     },
     "C10": {
